@@ -185,6 +185,33 @@ def _install_pyfftw_hook() -> None:
         pass
 
 
+def _install_numba_cache_lock() -> None:
+    """numba's on-disk cache is not safe against concurrent writers of *different* closures of one
+    function: IndexDataCacheFile.save() loads the index, picks the first free data-file number and
+    writes index and data without any lock, so two processes can hand the same data file to two
+    different keys - a later load then runs the wrong specialisation (seen here as a kernel compiled
+    for 600 markers being loaded for 3).  The harness runs many processes: serialise save()."""
+    import fcntl
+
+    import numba.core.caching as nc
+
+    if getattr(nc.IndexDataCacheFile.save, "_verif_locked", False):
+        return
+    orig_save = nc.IndexDataCacheFile.save
+
+    def locked_save(self, key, data):
+        lock_path = self._index_path + ".lock"
+        with open(lock_path, "a+b") as lk:
+            fcntl.flock(lk, fcntl.LOCK_EX)
+            try:
+                return orig_save(self, key, data)
+            finally:
+                fcntl.flock(lk, fcntl.LOCK_UN)
+
+    locked_save._verif_locked = True  # type: ignore[attr-defined]
+    nc.IndexDataCacheFile.save = locked_save
+
+
 def install(import_sopht: bool = True):
     """Install all seams (idempotent) and import sopht from the tree under test."""
     global _installed
@@ -200,6 +227,7 @@ def install(import_sopht: bool = True):
         _install_pystencils_compat()
         _install_kernel_hook()
         _install_pyfftw_hook()
+        _install_numba_cache_lock()
         _installed = True
     if import_sopht:
         import sopht  # noqa: F401
